@@ -890,7 +890,7 @@ pub fn work(spec: &Value, w: &mut WorkerCtx)
 				// the import lines need not stand on top: the same split with the imports of every
 				// module at the bottom, with all but the first at the bottom, and behind the first
 				// declaration (small programs only)
-				let small = p.units.len() <= if w.tier == "quick" { 4 } else { 5 };
+				let small = p.units.len() <= if w.tier == "quick" { 3 } else { 5 };
 				if form == 0 && small
 				{
 					for placement in 1..=3
